@@ -82,7 +82,7 @@ count_fragments_binned = Contract(
     setup=cfb_setup,
     callees=['read_counts'],
     loops={0: LoopSpec(
-        inv={}, head_hook=cfb_fetch_covers,
+        inv={}, head_hook=cfb_fetch_covers, must_exhaust=True,     # every fetched record is looked at (sites are not sorted)
         types={'counts': ('symdict', [(STR, INT, INT), (STR,)], INT)},
         body_post={
             # one arbitrary fetched record: the matrix changes by exactly +1 in the cell (bin containing the site,
